@@ -215,10 +215,10 @@ CONDITIONS = [
          params=[("rc", "int"), ("has_rc", "bool"), ("out", "str"), ("err", "str"), ("oserror", "bool"), ("nerr", "int")],
          pre=["-64 <= rc <= 255", "len(out) <= 3", "len(err) == nerr"],
          partitions={"quick": [{"oserror": False, "has_rc": h, "nerr": n} for h in (True, False) for n in range(5)] + [{"oserror": True, "nerr": 2}],
-                     "thorough": [{"oserror": False, "has_rc": h, "nerr": n} for h in (True, False) for n in range(7)] + [{"oserror": True, "nerr": 2}]},
+                     "thorough": [{"oserror": False, "has_rc": h, "nerr": n} for h in (True, False) for n in range(6)] + [{"oserror": True, "nerr": 2}]},
          timeout={"quick": 400, "thorough": 900},
          functions=["sigver.CryptoBackendXmlSec1.validate_signature", "sigver.CryptoBackendXmlSec1._run_xmlsec", "sigver.parse_xmlsec_output"],
-         bounds="return code in [-64, 255] or None, stdout ANY string <= 3 chars, stderr ANY string of <= 4 chars (quick) / <= 6 chars (thorough), partitioned by length (covers 'OK', 'OK\\n', 'xOK', 'FAIL', "
+         bounds="return code in [-64, 255] or None, stdout ANY string <= 3 chars, stderr ANY string of <= 4 chars (quick) / <= 5 chars (thorough), partitioned by length (covers 'OK', 'OK\\n', 'xOK', 'FAIL', "
                 "'\\nOK\\n', garbage), tool not startable"),
     Cond(name="check_signature_site", fn="check_signature_site", params=[("f1", "int"), ("f2", "int"), ("f3", "int")],
          pre=["0 <= f1 < %d" % _NF, "0 <= f2 < %d" % _NF, "0 <= f3 < %d" % _NF],
